@@ -113,6 +113,8 @@ Proof.
                         end).
   destruct expected as [ex|] eqn:Eex; [|discriminate].
   destruct (utf8_encode (t "HTTP/1.1 " ++ dec_N code ++ [32] ++ reason)) as [start|]; [|discriminate].
+  destruct (negb (reason_ok reason)); [discriminate|].
+  destruct (negb (forallb (fun nv => forallb value_char (snd nv)) (hm_get_all h2))); [discriminate|].
   destruct (negb (forallb (fun nv => is_token (fst nv)) (hm_get_all h2))); [discriminate|].
   match goal with |- (if ?c then _ else _) = _ -> _ => destruct c; [discriminate|] end.
   match goal with |- (if ?c then _ else _) = _ -> _ => destruct c; [discriminate|] end.
@@ -228,7 +230,8 @@ Qed.
 Lemma status_ok_inv status : status_ok status = true ->
   exists a b c reason, status = a :: b :: c :: 32 :: reason /\
     partition1 32 status = ([a; b; c], true, reason) /\ py_int [a; b; c] = IntOk (status_code status) /\
-    dec_N (status_code status) = [a; b; c] /\ Forall (fun x => x < 128) reason /\ has_crlf reason = false.
+    dec_N (status_code status) = [a; b; c] /\ Forall (fun x => x < 128) reason /\ has_crlf reason = false /\
+    reason_ok reason = true.
 Proof.
   unfold status_ok. destruct status as [|a [|b [|c [|sp reason]]]]; try discriminate.
   destruct sp as [|p]; [discriminate|]. do 6 (destruct p as [p|p|]; try discriminate).
@@ -247,8 +250,11 @@ Proof.
   { unfold status_code. cbn [firstn]. apply dec3; assumption. }
   split.
   - apply Forall_forall. intros x Hx. rewrite forallb_forall in Hr. specialize (Hr x Hx). unfold in_range in Hr. lia.
-  - unfold has_crlf. destruct (existsb (fun c0 => (c0 =? 13) || (c0 =? 10)) reason) eqn:E; [|reflexivity].
-    apply existsb_exists in E as [x [Hx E]]. rewrite forallb_forall in Hr. specialize (Hr x Hx). unfold in_range in Hr. lia.
+  - split.
+    + unfold has_crlf. destruct (existsb (fun c0 => (c0 =? 13) || (c0 =? 10)) reason) eqn:E; [|reflexivity].
+      apply existsb_exists in E as [x [Hx E]]. rewrite forallb_forall in Hr. specialize (Hr x Hx). unfold in_range in Hr. lia.
+    + unfold reason_ok. apply forallb_forall. intros x Hx. rewrite forallb_forall in Hr. specialize (Hr x Hx).
+      unfold value_char, in_range in *. lia.
 Qed.
 
 Lemma ascii_app a b : Forall (fun x => x < 128) a -> Forall (fun x => x < 128) b -> Forall (fun x => x < 128) (a ++ b).
@@ -264,7 +270,7 @@ Lemma handle_request_status_line ver r a o s wh b status hs :
 Proof.
   intros Hst Hok H. destruct (handle_request_faithful _ _ _ _ _ _ _ H) as [st' [hs' [cs [reason [code [E1 [E2 [E3 [E4 [E5 [E6 E7]]]]]]]]]]].
   rewrite Hst in E1. inversion E1; subst st' hs'.
-  destruct (status_ok_inv status Hok) as [x [y [z [rs [Es [Ep [Ei [Ed [Ha Hc]]]]]]]]].
+  destruct (status_ok_inv status Hok) as [x [y [z [rs [Es [Ep [Ei [Ed [Ha [Hc _]]]]]]]]]].
   rewrite Ep in E2. inversion E2; subst cs reason. rewrite Ei in E3. inversion E3; subst code.
   rewrite Ed in E4. rewrite utf8_encode_ascii in E4.
   - inversion E4. split; [|split; [exact E5|split; assumption]]. rewrite Es. reflexivity.
